@@ -1918,6 +1918,9 @@ class GroupBy:
         common_index = _validate_input_lengths_and_indexes(value_list)
         keep = ilocs > -1
         ilocs = ilocs[keep]
+        if keep_input_index and self._sort:
+            # original row order, whatever the labels of the input index are
+            ilocs = np.sort(ilocs)
 
         if keep_input_index:
             if common_index is None:
@@ -1949,7 +1952,7 @@ class GroupBy:
             result, values=values, n_values=len(value_names)
         )
 
-        if self._sort:
+        if self._sort and not keep_input_index:
             result.sort_index(inplace=True)
 
         return result
